@@ -3,9 +3,9 @@ import QipVerif.Lemmas.TranspileTop
 # C13: the transpiled circuit denotes the same unitary (over ℂ, `denG` of `Lemmas/Sem.lean`)
 
 The decomposition stages use `C03.resolve_den_partial` (proved).  The routing stage is the
-ℂ-instantiation of C07's `route_den` **through the conversion** `toRoute`/`ofRoute`; it enters as
-the one named hypothesis `RouteStageDen` (C07 proves `route_den_C` for its own interpretation
-`interpC` of `Route.Gate`; identifying `interpC ∘ toRoute` with `semD` is the remaining bridge).
+ℂ-instantiation of C07's `route_den` **through the conversion** `toRoute`/`ofRoute`; here it is the
+named hypothesis `RouteStageDen`, which `Lemmas/TranspileRouteDen.lean` discharges
+(`routeStageDen`, from C07's `toChain_den_C`).
 -/
 namespace QipVerif.Transpile
 open QipVerif QipVerif.Decomp QipVerif.Gen Matrix
